@@ -398,6 +398,12 @@ func (viso *VirtualISO) makeDirEntries(item *dirItem, joliet bool) error {
 	}
 
 	// total size must be integer number of sectors so ceil it if needed
+	if joliet {
+		totalSizeBytes = dirEntriesSize(item.dirEntryJoliet)
+	} else {
+		totalSizeBytes = dirEntriesSize(item.dirEntry)
+	}
+
 	totalSizeBytes = totalSizeBytes.sectors().bytes()
 
 	// set correct size to first entry
@@ -637,6 +643,10 @@ func (viso *VirtualISO) writeFSStructures(gameCode string) error {
 	// iso directories
 	for _, item := range viso.rootDir {
 		for _, dirEntry := range item.dirEntry {
+			if viso.fsBuf.size()%sectorSize+dirEntry.size() > sectorSize {
+				viso.fsBuf.padLastSector()
+			}
+
 			dirEntry.encode(&viso.fsBuf)
 		}
 
@@ -646,6 +656,10 @@ func (viso *VirtualISO) writeFSStructures(gameCode string) error {
 	// joliet directories
 	for _, item := range viso.rootDir {
 		for _, dirEntry := range item.dirEntryJoliet {
+			if viso.fsBuf.size()%sectorSize+dirEntry.size() > sectorSize {
+				viso.fsBuf.padLastSector()
+			}
+
 			dirEntry.encode(&viso.fsBuf)
 		}
 
